@@ -1,3 +1,399 @@
-import E3nnVerif.Model.Pointwise
+import E3nnVerif.Theory.Pointwise
+/-
+C09 — pointwise non-linear layers act only through invariants and stay equivariant.
+
+Objects (Model/Pointwise.lean, mirrors of the python source, generic over `[Scalar K]`, here at `K = ℝ`):
+  activationCtor / activationFwd   e3nn/nn/_activation.py   Activation.__init__ / forward
+  gateCtor / gateFwd / sortcut     e3nn/nn/_gate.py         Gate, _Sortcut
+  normActCtor / normActFwd         e3nn/nn/_normact.py      NormActivation
+  normFwd, normIrrepsIn/Out        e3nn/o3/_norm.py         Norm
+  extractCtor / extractFwd, …Ir    e3nn/nn/_extract.py      Extract, ExtractIr
+  identityCtor / identityFwd       e3nn/nn/_identity.py     Identity
+
+Group elements.  `Action` (Theory/Pointwise.lean) is one element of O(3) acting on every irrep type: a map per
+`(l, parity)` that preserves lengths and `Σ x²`, is homogeneous, fixes `0e` and multiplies `0o` by `σ = ±1`.
+`OrthFamily.toAction` shows that ANY family of orthogonal matrices `Q l p` (`Qᵀ Q = 1`, `Q 0 even = 1`), acting by
+matrix–vector product on every copy, is an `Action`; `O3Family` (`Q l p = s^{odd} R l`, the shape of the real
+`D^{l,p}(g)`) is moreover `Twisted`, the extra compatibility `(l, odd) = (l, even) ⊗ 0o` that only `Gate` needs
+(it multiplies an irrep by an odd scalar).  `rho A irreps x` is the block action on a flat feature vector.
+All equivariance theorems hold for EVERY input of the right length — zero vectors included — and every layout.
+-/
+set_option linter.unusedSimpArgs false
+set_option linter.unnecessarySeqFocus false
 namespace E3nnVerif.Props.C09
+open E3nnVerif E3nnVerif.Pointwise
+
+noncomputable section
+
+/-! ## Activation -/
+
+/-- The constructor's decision for one block, as a function of the grid-test outcome `d`:
+even scalar inputs keep their parity whatever the function; odd scalar inputs take the parity of the function
+(the even test has priority); a function that is neither even nor odd is refused on an odd scalar; an activation
+on `l > 0` is refused; `None` keeps the block. -/
+theorem activation_decision (mul l : Nat) (p : Bool) (d : Detect) :
+    activationCtor [(mul, 0, false)] [some d] = .ok [(mul, 0, false)] ∧
+    (d.even = true → activationCtor [(mul, 0, true)] [some d] = .ok [(mul, 0, false)]) ∧
+    (d.even = false → d.odd = true → activationCtor [(mul, 0, true)] [some d] = .ok [(mul, 0, true)]) ∧
+    (d.even = false → d.odd = false → activationCtor [(mul, 0, true)] [some d] = .error .actParity) ∧
+    (l ≠ 0 → activationCtor [(mul, l, p)] [some d] = .error .actNonScalar) ∧
+    activationCtor [(mul, l, p)] [none] = .ok [(mul, l, p)] := by
+  refine ⟨by simp [activationCtor, actOutLoop, Except.map], ?_, ?_, ?_, ?_, by simp [activationCtor, actOutLoop, Except.map]⟩
+  · intro h; simp [activationCtor, actOutLoop, Except.map, Detect.pAct, h]
+  · intro h1 h2; simp [activationCtor, actOutLoop, Except.map, Detect.pAct, h1, h2]
+  · intro h1 h2; simp [activationCtor, actOutLoop, Detect.pAct, h1, h2]
+  · intro h; simp [activationCtor, actOutLoop, h]
+
+/-- A wrong number of activation functions is refused. -/
+theorem activation_length_mismatch (irr : Irreps) (dets : List (Option Detect)) (h : irr.length ≠ dets.length) :
+    activationCtor irr dets = .error .actLen := by
+  simp [activationCtor, h]
+
+/-- Block-wise value of `Activation.forward` for an accepted configuration: the (second-moment normalised)
+function applied entrywise on blocks that carry one, the other blocks untouched. -/
+theorem activation_blocks (irr : Irreps) (acts : List (Option (Act ℝ))) (dets : List (Option Detect))
+    (hS : Specs acts dets) (out : Irreps) (hC : activationCtor irr dets = .ok out)
+    (x y : List ℝ) (hx : x.length = dim irr) (hy : activationFwd irr acts x = .ok y) (i : Nat) (hi : i < irr.length) :
+    block irr i y = match acts[i]? with
+      | some (some a) => (block irr i x).map a.apply
+      | _ => block irr i x := by
+  obtain ⟨hl, hloop⟩ := activationCtor_ok hC
+  rw [activationFwd_eq irr acts x hx] at hy
+  exact actBlocks_block irr acts dets hS out hloop hl x y hx hy i hi
+
+/-- **Activation is equivariant with the reported `irreps_out`**, for every group element, every layout, every
+input: IF each function is truly even (resp. odd) on ℝ whenever the grid test said so (`Specs`/`Truthful`) and the
+constructor accepted, THEN the forward succeeds and commutes with the action. -/
+theorem activation_equivariant (A : Action) (irr : Irreps) (acts : List (Option (Act ℝ)))
+    (dets : List (Option Detect)) (hS : Specs acts dets) (out : Irreps)
+    (hC : activationCtor irr dets = .ok out) (x : List ℝ) (hx : x.length = dim irr) :
+    ∃ y, activationFwd irr acts x = .ok y ∧ y.length = dim out ∧
+      activationFwd irr acts (rho A irr x) = .ok (rho A out y) :=
+  activationFwd_equivariant A irr acts dets hS out hC x hx
+
+/-- hypotheses are satisfiable: `2x0o + 1x1e + 3x0e` with an even function on the odd scalars, `None`, anything on `0e` -/
+example : Specs [some ⟨fun t => t * t, 2, false⟩, none, some ⟨fun t => Real.exp t, 1, true⟩]
+    [some ⟨true, false⟩, none, some ⟨false, false⟩] :=
+  .some ⟨fun _ t => by ring, fun h => by simp at h⟩ (.none (.some ⟨fun h => by simp at h, fun h => by simp at h⟩ .nil))
+example : activationCtor [(2, 0, true), (1, 1, false), (3, 0, false)]
+    [some ⟨true, false⟩, none, some ⟨false, false⟩] = .ok [(2, 0, false), (1, 1, false), (3, 0, false)] := by decide
+
+/-- Reading under the inversion: an even function on `mul x 0o` gives a `0e` output and indeed `f(-x) = f(x)`;
+an odd function gives a `0o` output and `f(-x) = -f(x)`. -/
+theorem activation_inversion (mul : Nat) (a : Act ℝ) (x : List ℝ) (hx : x.length = mul) :
+    ((∀ t, a.f (-t) = a.f t) →
+      activationCtor [(mul, 0, true)] [some ⟨true, false⟩] = .ok [(mul, 0, false)] ∧
+      ∃ y, activationFwd [(mul, 0, true)] [some a] x = .ok y ∧
+        activationFwd [(mul, 0, true)] [some a] (x.map (-1 * ·)) = .ok y) ∧
+    ((∀ t, a.f (-t) = -a.f t) →
+      activationCtor [(mul, 0, true)] [some ⟨false, true⟩] = .ok [(mul, 0, true)] ∧
+      ∃ y, activationFwd [(mul, 0, true)] [some a] x = .ok y ∧
+        activationFwd [(mul, 0, true)] [some a] (x.map (-1 * ·)) = .ok (y.map (-1 * ·))) := by
+  have hrho : ∀ (p : Bool) (z : List ℝ), z.length = mul →
+      rho Action.inversion [(mul, 0, p)] z = z.map (Action.inversion.sgn p * ·) := by
+    intro p z hz
+    rw [rho_cons_scalar _ _ _ _ _ (by omega), rho_nil, List.append_nil, ← hz, List.take_length]
+  constructor
+  · intro heven
+    have hC := (activation_decision mul 0 true ⟨true, false⟩).2.1 rfl
+    have hS : Specs [some a] [some ⟨true, false⟩] := .some ⟨fun _ => heven, fun h => by simp at h⟩ .nil
+    obtain ⟨y, h1, h2, h3⟩ := activation_equivariant Action.inversion _ _ _ hS _ hC x
+      (by simp [mulIrDim, irDim, hx])
+    refine ⟨hC, y, h1, ?_⟩
+    rw [hrho true x hx, hrho false y (by simpa [mulIrDim, irDim] using h2)] at h3
+    simpa [Action.sgn, Action.inversion] using h3
+  · intro hodd
+    have hC := (activation_decision mul 0 true ⟨false, true⟩).2.2.1 rfl rfl
+    have hS : Specs [some a] [some ⟨false, true⟩] := .some ⟨fun h => by simp at h, fun _ => hodd⟩ .nil
+    obtain ⟨y, h1, h2, h3⟩ := activation_equivariant Action.inversion _ _ _ hS _ hC x
+      (by simp [mulIrDim, irDim, hx])
+    refine ⟨hC, y, h1, ?_⟩
+    rw [hrho true x hx, hrho true y (by simpa [mulIrDim, irDim] using h2)] at h3
+    simpa [Action.sgn, Action.inversion] using h3
+
+/-- **Limitation (documented).**  The constructor only tests evenness on the 256 grid points `10k/255`.  `wit` passes
+that test exactly, is not even, is accepted on an odd scalar with reported output `0e`, and the resulting layer does
+NOT commute with the inversion.  So the grid test alone does not imply the property; `activation_equivariant`
+needs the truthfulness hypothesis. -/
+theorem grid_test_does_not_imply_even (cst : ℝ) (hc : cst ≠ 0) :
+    GridEven wit ∧ ¬ (∀ t, wit (-t) = wit t) ∧
+    activationCtor [(1, 0, true)] [some ⟨true, false⟩] = .ok [(1, 0, false)] ∧
+    ∃ x y, x.length = dim [(1, 0, true)] ∧
+      activationFwd [(1, 0, true)] [some ⟨wit, cst, false⟩] x = .ok y ∧
+      activationFwd [(1, 0, true)] [some ⟨wit, cst, false⟩] (rho Action.inversion [(1, 0, true)] x)
+        ≠ .ok (rho Action.inversion [(1, 0, false)] y) := by
+  refine ⟨wit_gridEven, fun h => wit_not_even (h _), by decide, [1 / 51], [wit (1 / 51) * cst], rfl, ?_, ?_⟩
+  · simp [activationFwd, actBlocks, irDim, Act.apply, Except.map]
+  · have h1 : rho Action.inversion [(1, 0, true)] [1 / 51] = [-(1 / 51)] := by
+      simp [rho, rhoC, irDim, Action.inversion]
+    have h2 : rho Action.inversion [(1, 0, false)] [wit (1 / 51) * cst] = [wit (1 / 51) * cst] := by
+      simp [rho, rhoC, irDim, Action.inversion]
+    rw [h1, h2]
+    simp only [activationFwd, actBlocks, irDim, Act.apply, Except.map]
+    simp only [Nat.mul_zero, Nat.zero_add, Nat.mul_one, List.length_cons, List.length_nil, Nat.lt_irrefl,
+      if_false, List.take_succ_cons, List.take_zero, List.map_cons, List.map_nil, List.drop_succ_cons,
+      List.drop_zero, List.append_nil, Bool.false_eq_true, ne_eq, Except.ok.injEq, List.cons.injEq, and_true]
+    intro h
+    exact wit_not_even (mul_right_cancel₀ hc h)
+
+/-! ## Gate -/
+
+/-- `_Sortcut` bookkeeping, all layouts: (1) every instruction index sends a block of the sorted input to an output
+block OF THE SAME IRREPS (so the three outputs really are `irreps_scalars`, `irreps_gates`, `irreps_gated`), and
+(2) the instruction indices, read in order, are a permutation of all block indices of the sorted input (no block is
+lost, none is used twice). -/
+theorem sortcut_bookkeeping (outs : List Irreps) :
+    List.Forall₂ (WellFormed (sortcut outs).sorted) (sortcut outs).outs (sortcut outs).instructions ∧
+    (sortcut outs).instructions.flatten.Perm (List.range (sortcut outs).sorted.length) :=
+  ⟨sortcut_wellFormed outs, sortcut_instructions_perm outs⟩
+
+/-- The elementwise product inside `Gate` (and `NormActivation`): for every layout, copy `u` of the result is copy `u`
+of the features multiplied by the `u`-th scalar — each gated irrep meets its own gate. -/
+theorem ewMul_copy (irr : Irreps) (g y : List ℝ) (hy : y.length = dim irr) (hg : g.length = numIrreps irr)
+    (u : Nat) (hu : u < numIrreps irr) :
+    ∃ a, g[u]? = some a ∧
+      copyAt (expand irr) u (ewMul irr g y) = (copyAt (expand irr) u y).map (· * a) := by
+  have hu' : u < g.length := by omega
+  refine ⟨g[u], List.getElem?_eq_getElem hu', ?_⟩
+  rw [ewMul_eq]
+  exact copyAt_ewMulC _ g y (by rw [cdim_expand]; exact hy) u _ (by rw [length_expand]; exact hu)
+    (List.getElem?_eq_getElem hu') (by rw [length_expand]; omega)
+
+/-- **Value of `Gate.forward`** for every accepted configuration and every input of length `irreps_in.dim`:
+`activated scalars ++ (gated ⊙ activated gates)`, the three parts being the blocks selected by the three `_Sortcut`
+instructions; there are exactly as many activated gates as gated copies (so `ewMul_copy` applies). -/
+theorem gate_value (irrS irrG irrY : Irreps)
+    (actS : List (Option (Act ℝ))) (detS : List (Option Detect)) (hSS : Specs actS detS)
+    (actG : List (Option (Act ℝ))) (detG : List (Option Detect)) (hSG : Specs actG detG)
+    (info : GateInfo) (hC : gateCtor irrS detS irrG detG irrY = .ok info)
+    (x : List ℝ) (hx : x.length = dim info.irrepsIn) :
+    ∃ iS iG iY S' G', info.sc.instructions = [iS, iG, iY] ∧
+      activationFwd irrS actS (selected info.sc.sorted x iS) = .ok S' ∧
+      activationFwd irrG actG (selected info.sc.sorted x iG) = .ok G' ∧
+      G'.length = numIrreps irrY ∧ (selected info.sc.sorted x iY).length = dim irrY ∧
+      gateFwd irrS actS irrG actG irrY x = .ok (S' ++ ewMul irrY G' (selected info.sc.sorted x iY)) :=
+  gateFwd_formula irrS irrG irrY actS detS hSS actG detG hSG info hC x hx
+
+/-- **Gate is equivariant** with the reported `irreps_in` (sorted, simplified) and
+`irreps_out = act_scalars.irreps_out + mul.irreps_out`, for every twisted action (every element of O(3)), every
+layout the constructor accepts, every input. -/
+theorem gate_equivariant (A : Action) (hA : A.Twisted) (irrS irrG irrY : Irreps)
+    (actS : List (Option (Act ℝ))) (detS : List (Option Detect)) (hSS : Specs actS detS)
+    (actG : List (Option (Act ℝ))) (detG : List (Option Detect)) (hSG : Specs actG detG)
+    (info : GateInfo) (hC : gateCtor irrS detS irrG detG irrY = .ok info)
+    (x : List ℝ) (hx : x.length = dim info.irrepsIn) :
+    ∃ y, gateFwd irrS actS irrG actG irrY x = .ok y ∧ y.length = dim info.irrepsOut ∧
+      gateFwd irrS actS irrG actG irrY (rho A info.irrepsIn x) = .ok (rho A info.irrepsOut y) :=
+  gateFwd_equivariant A hA irrS irrG irrY actS detS hSS actG detG hSG info hC x hx
+
+/-- hypotheses are satisfiable: `Gate("2x0e+0o", [f, odd], "0o+2x0e", [odd, None], "1o+2x2e")`, unsorted input -/
+example : ∃ info, gateCtor [(2, 0, false), (1, 0, true)] [some ⟨false, false⟩, some ⟨false, true⟩]
+    [(1, 0, true), (2, 0, false)] [some ⟨false, true⟩, none] [(1, 1, true), (2, 2, false)] = .ok info
+    ∧ info.irrepsIn = [(2, 0, true), (4, 0, false), (1, 1, true), (2, 2, false)]
+    ∧ info.irrepsOut = [(2, 0, false), (1, 0, true), (1, 1, false), (2, 2, false)]
+    ∧ info.sc.instructions = [[2, 0], [1, 3], [4, 5]] := ⟨_, rfl, by decide, by decide, by decide⟩
+example : Action.inversion.Twisted := Action.inversion_twisted
+example (G : O3Family) : G.toOrth.toAction.Twisted := G.twisted
+
+/-- constructor defect (reproduced on the real code): gates whose multiplicities are all zero are refused through
+`Irreps.lmax` (`max()` of an empty sequence), although the layout is a legitimate "no gated part" -/
+theorem gateCtor_zero_mul_rejected (d d' : Detect) :
+    gateCtor [(1, 0, false)] [some d] [(0, 0, false)] [some d'] [(0, 1, false)] = .error .lmaxEmpty := rfl
+
+/-! ## NormActivation -/
+
+/-- **Constructor defect** (reproduced on the real code): `normalize = False` cannot be constructed — with
+`epsilon = None` the guard evaluates `None > 0` (TypeError), with an `epsilon` it raises the ValueError. -/
+theorem normActCtor_normalize_false_unconstructible (eps : Option ℝ) (bias isStr : Bool) :
+    ∃ e, normActCtor false eps bias isStr = .error e ∧ (eps = none → e = .noneGtInt) := by
+  cases eps <;> simp [normActCtor]
+
+/-- constructor defect (reproduced): `bias=True` with `irreps_in` given as a `str` reads `.num_irreps` of the raw `str` -/
+theorem normActCtor_bias_str (nz : Bool) (eps : Option ℝ) : ∃ e, normActCtor nz eps true true = .error e := by
+  unfold normActCtor
+  cases eps <;> cases nz <;> simp <;> split <;> simp
+
+/-- the accepted configurations: `normalize = True` with `epsilon = None` (stored `1e-8`) or `epsilon > 0` -/
+theorem normActCtor_accepts (ε : ℝ) (hε : 0 < ε) :
+    normActCtor true (none : Option ℝ) false false = .ok (some (1 / 100000000)) ∧
+    normActCtor true (some ε) false false = .ok (some ε) := by
+  constructor
+  · simp [normActCtor, Scalar.ofFrac, Scalar.ofInt]
+  · have : Scalar.lt (0 : ℝ) ε = true := by simp [hε]
+    simp [normActCtor, this]
+
+/-- **Closed form of `NormActivation.forward`** (stored `ε > 0`, any layout, any input of the right length): every
+copy is multiplied by `normScale φ normalize ε b_u (‖x_u‖²)`, a function of its Euclidean norm (and its bias) only;
+`copyAt_scaleByC` reads this copy by copy. -/
+theorem normAct_closed_form {ε : ℝ} (hε : 0 < ε) (irr : Irreps) (phi : ℝ → ℝ) (nz : Bool)
+    (bias : Option (List ℝ)) (hb : ∀ b, bias = some b → b.length = numIrreps irr)
+    (x : List ℝ) (hx : x.length = dim irr) :
+    normActFwd irr phi nz (some ε) bias x
+      = .ok (scaleByC (expand irr) ((biasList bias (numIrreps irr)).map (normScale phi nz ε)) x) :=
+  normActFwd_closed_form hε irr phi nz bias hb x hx
+
+/-- copy `u` of the output of `NormActivation` = copy `u` of the input times `normScale … (Σ_m x_{u,m}²)` -/
+theorem normAct_copy {ε : ℝ} (hε : 0 < ε) (irr : Irreps) (phi : ℝ → ℝ) (nz : Bool)
+    (bias : Option (List ℝ)) (hb : ∀ b, bias = some b → b.length = numIrreps irr)
+    (x : List ℝ) (hx : x.length = dim irr) (u : Nat) (hu : u < numIrreps irr) :
+    ∃ y b, normActFwd irr phi nz (some ε) bias x = .ok y ∧ (biasList bias (numIrreps irr))[u]? = some b ∧
+      copyAt (expand irr) u y
+        = (copyAt (expand irr) u x).map (· * normScale phi nz ε b (sumSq (copyAt (expand irr) u x))) := by
+  have hbl : (biasList bias (numIrreps irr)).length = numIrreps irr := by
+    cases bias with
+    | none => simp [biasList]
+    | some b => simpa [biasList] using hb b rfl
+  have hu' : u < (biasList bias (numIrreps irr)).length := by omega
+  refine ⟨_, (biasList bias (numIrreps irr))[u], normAct_closed_form hε irr phi nz bias hb x hx,
+    List.getElem?_eq_getElem hu', ?_⟩
+  exact copyAt_scaleByC _ _ x (by rw [cdim_expand]; exact hx) u _ (by rw [length_expand]; exact hu)
+    (by rw [List.getElem?_map, List.getElem?_eq_getElem hu']; rfl)
+    (by rw [length_expand, List.length_map, hbl])
+
+/-- the factor: where the norm is at least `ε` it is `φ(|x| + b)/|x|`; below, the norm is replaced by `ε`
+(so at `x = 0` the factor is the finite number `φ(ε + b)/ε`, never `0/0`) -/
+theorem normScale_values (phi : ℝ → ℝ) {ε : ℝ} (hε : 0 < ε) (b q : ℝ) :
+    (ε * ε ≤ q → normScale phi true ε b q = phi (Real.sqrt q + b) / Real.sqrt q) ∧
+    (q < ε * ε → normScale phi true ε b q = phi (ε + b) / ε) ∧
+    normScale phi true ε b 0 = phi (ε + b) / ε ∧ 0 < clampNorm ε q := by
+  refine ⟨fun h => by simp [normScale, clampNorm_of_ge h], fun h => by simp [normScale, clampNorm_of_lt hε h],
+    by simp [normScale, clampNorm_of_lt hε (mul_pos hε hε)], clampNorm_pos hε q⟩
+
+/-- **NormActivation at zero input** (`normalize = True`): the output is exactly zero. -/
+theorem normAct_zero_input {ε : ℝ} (hε : 0 < ε) (irr : Irreps) (phi : ℝ → ℝ)
+    (bias : Option (List ℝ)) (hb : ∀ b, bias = some b → b.length = numIrreps irr) :
+    normActFwd irr phi true (some ε) bias (List.replicate (dim irr) 0) = .ok (List.replicate (dim irr) 0) := by
+  rw [normAct_closed_form hε irr phi true bias hb _ (by simp), ← cdim_expand]
+  rw [scaleByC_zero]
+  cases bias with
+  | none => simp [biasList, length_expand]
+  | some b => simp [biasList, length_expand, hb b rfl]
+
+/-- one copy of norm at least `ε`, no bias: `x ↦ φ(|x|) · x / |x|` -/
+theorem normAct_single_copy {ε : ℝ} (hε : 0 < ε) (l : Nat) (p : Bool) (phi : ℝ → ℝ) (v : List ℝ)
+    (hv : v.length = irDim l) (hbig : ε * ε ≤ sumSq v) :
+    normActFwd [(1, l, p)] phi true (some ε) none v
+      = .ok (v.map (· * (phi (Real.sqrt (sumSq v)) / Real.sqrt (sumSq v)))) := by
+  rw [normAct_closed_form hε _ phi true none (by simp) v (by simp [mulIrDim, hv])]
+  simp only [expand_cons, expand_nil, List.append_nil, List.replicate_one, biasList, numIrreps, Nat.add_zero,
+    List.map_cons, List.map_nil]
+  rw [scaleByC_single l p _ v hv, (normScale_values phi hε 0 (sumSq v)).1 hbig, add_zero]
+
+/-- **NormActivation is equivariant** (any action, layout, nonlinearity, stored epsilon, normalize, bias; all inputs) -/
+theorem normAct_equivariant (A : Action) (irr : Irreps) (phi : ℝ → ℝ) (normalize : Bool)
+    (epsilon : Option ℝ) (bias : Option (List ℝ)) (hb : ∀ b, bias = some b → numIrreps irr ≤ b.length)
+    (x : List ℝ) (hx : x.length = dim irr) :
+    ∃ y, normActFwd irr phi normalize epsilon bias x = .ok y ∧ y.length = dim irr ∧
+      normActFwd irr phi normalize epsilon bias (rho A irr x) = .ok (rho A irr y) :=
+  normActFwd_equivariant A irr phi normalize epsilon bias hb x hx
+
+example : (0 : ℝ) < 1 / 100000000 := by norm_num
+example : (1 / 100000000 : ℝ) * (1 / 100000000) ≤ sumSq [3, 4, 0] := by norm_num [sumSq]
+
+/-! ## Norm -/
+
+/-- **`o3.Norm` returns the Euclidean norm of every copy**: entry `u` is `√(Σ_m x_{u,m}²)` (the `relu` is inert) -/
+theorem norm_closed_form (irr : Irreps) (x : List ℝ) (hx : x.length = dim irr) :
+    normFwd irr false x = .ok ((sqNormsC (expand irr) x).map Real.sqrt) ∧
+    normFwd irr true x = .ok (sqNormsC (expand irr) x) ∧
+    ∀ u, u < numIrreps irr → (sqNormsC (expand irr) x)[u]? = some (sumSq (copyAt (expand irr) u x)) := by
+  refine ⟨normFwd_closed_form irr x hx, by rw [normFwd_ok irr true x hx, sqNorms_eq]; rfl, fun u hu => ?_⟩
+  exact getElem?_sqNormsC _ x u (by rw [length_expand]; exact hu)
+
+/-- `Σ x²` is the squared Euclidean norm -/
+theorem sumSq_is_sum_of_squares (v : List ℝ) : sumSq v = (v.map fun a => a ^ 2).sum := sumSq_eq_sum v
+
+/-- **`o3.Norm` is invariant**: input transformed with the reported (simplified) `irreps_in`, output with the reported
+`irreps_out = N x 0e`; wrong input lengths are rejected. -/
+theorem norm_equivariant (A : Action) (irr : Irreps) (sq : Bool) (x : List ℝ) (hx : x.length = dim irr) :
+    ∃ y, normFwd irr sq x = .ok y ∧ y.length = dim (normIrrepsOut irr) ∧
+      normFwd irr sq (rho A (normIrrepsIn irr) x) = .ok (rho A (normIrrepsOut irr) y) :=
+  normFwd_equivariant A irr sq x hx
+
+theorem norm_rejects_wrong_length (irr : Irreps) (sq : Bool) (x : List ℝ) (hx : x.length ≠ dim irr) :
+    normFwd irr sq x = .error .runtime := by
+  simp [normFwd, hx]
+
+/-! ## Extract, ExtractIr, Identity -/
+
+/-- **Extract copies the selected blocks and is equivariant**, output `k` carrying `irreps_outs[k]` — under the
+consistency `WellFormed` between `irreps_outs` and the instructions, which `Extract.__init__` does not check
+(see `extract_unchecked`), and which `ExtractIr` and `_Sortcut` guarantee. -/
+theorem extract_equivariant (A : Action) (irrIn : Irreps) (x : List ℝ) (hx : x.length = dim irrIn)
+    (outs : List Irreps) (inss : List (List Nat)) (hW : List.Forall₂ (WellFormed irrIn) outs inss) :
+    extractFwd irrIn outs inss x = .ok (inss.map (selected irrIn x)) ∧
+    extractFwd irrIn outs inss (rho A irrIn x)
+      = .ok (List.zipWith (rho A) outs (inss.map (selected irrIn x))) :=
+  extractFwd_equivariant A irrIn x hx outs inss hW
+
+example : List.Forall₂ (WellFormed [(1, 0, false), (2, 1, true), (1, 0, false)])
+    [[(1, 0, false), (1, 0, false)], [(2, 1, true)]] [[2, 0], [1]] :=
+  .cons (by simp [WellFormed]) (.cons (by simp [WellFormed]) .nil)
+
+/-- **ExtractIr** selects exactly the blocks of the requested irrep and is equivariant with its reported `irreps_out` -/
+theorem extractIr_equivariant (A : Action) (irr : Irreps) (ir : Ir) (x : List ℝ) (hx : x.length = dim irr) :
+    WellFormed irr (extractIrOut irr ir) (extractIrIns irr ir) ∧
+    extractIrFwd irr ir x = .ok (selected irr x (extractIrIns irr ir)) ∧
+    extractIrFwd irr ir (rho A irr x) = .ok (rho A (extractIrOut irr ir) (selected irr x (extractIrIns irr ir))) :=
+  ⟨extractIr_wellFormed irr ir, extractIrFwd_equivariant A irr ir x hx⟩
+
+/-- **Unchecked precondition of `Extract`** (model = real code, see the harness stream EXTRACT/mismatch):
+`Extract("1x1o", ["1x1e"], [(0,)])` is accepted, and its output, reported as `1e`, changes sign under inversion. -/
+theorem extract_unchecked :
+    extractCtor [(1, 1, true)] [[(1, 1, false)]] [[0]] = .ok () ∧
+    extractFwd [(1, 1, true)] [[(1, 1, false)]] [[0]] [1, 0, 0] = .ok [[(1 : ℝ), 0, 0]] ∧
+    extractFwd [(1, 1, true)] [[(1, 1, false)]] [[0]] (rho Action.inversion [(1, 1, true)] [1, 0, 0])
+      ≠ .ok [rho Action.inversion [(1, 1, false)] [1, 0, 0]] := by
+  refine ⟨by decide, ?_, ?_⟩
+  · simp [extractFwd, extractAll, extractOut, extractOne, fit, block, mulIrDim, irDim, Except.map]
+  · simp [extractFwd, extractAll, extractOut, extractOne, fit, block, mulIrDim, irDim, Except.map,
+      rho, rhoC, Action.inversion]
+    norm_num
+
+/-- **Identity**: accepted iff both irreps simplify to the same non-empty irreps; the forward is the identity and is
+equivariant with the reported `irreps_in`, `irreps_out`. -/
+theorem identity_equivariant (A : Action) (a b r : Irreps) (h : identityCtor a b = .ok r) (x : List ℝ) :
+    r = simplify a ∧ simplify a = simplify b ∧
+    identityFwd (rho A (simplify a) x) = rho A (simplify b) (identityFwd x) := by
+  unfold identityCtor at h
+  split at h
+  · simp at h
+  · rename_i hne
+    have hab : simplify a = simplify b := by simpa using hne
+    split at h
+    · simp at h
+    · simp only [Except.ok.injEq] at h
+      exact ⟨h.symm, hab, by rw [hab]; rfl⟩
+
+example : identityCtor [(1, 1, false), (1, 1, false)] [(2, 1, false)] = .ok [(2, 1, false)] := by decide
+
+/-- constructor defect (reproduced): the zero-dimensional identity cannot be built (`torch.cat` of nothing) -/
+theorem identityCtor_empty_rejected : identityCtor [] [] = .error .catEmpty := by decide
+
+/-! ## orthogonal matrices -/
+
+/-- Every family of orthogonal matrices (`Qᵀ Q = 1` for each `(l, p)`, `Q 0 even = 1`), acting on each copy by
+matrix–vector product, is an `Action`: so `activation_equivariant`, `normAct_equivariant`, `norm_equivariant`,
+`extract_equivariant`, `identity_equivariant` hold for it.  The fields of the action are the matrix facts
+`|Qv|² = |v|²`, `Q(cv) = c Qv`, `Q_{0o} = ±1`. -/
+theorem orthogonal_family_acts (F : OrthFamily) (l : Nat) (p : Bool) (v : List ℝ) (hv : v.length = irDim l) :
+    F.toAction.M l p v = List.ofFn ((F.Q l p).mulVec (vecOf (irDim l) v)) ∧
+    sumSq (F.toAction.M l p v) = sumSq v ∧ (F.toAction.σ = 1 ∨ F.toAction.σ = -1) :=
+  ⟨rfl, F.toAction.normSq l p v hv, F.toAction.hσ⟩
+
+/-- …and an element of O(3) (`Q l p = s^{odd} R l`) is moreover twisted: `gate_equivariant` applies. -/
+theorem gate_equivariant_O3 (G : O3Family) (irrS irrG irrY : Irreps)
+    (actS : List (Option (Act ℝ))) (detS : List (Option Detect)) (hSS : Specs actS detS)
+    (actG : List (Option (Act ℝ))) (detG : List (Option Detect)) (hSG : Specs actG detG)
+    (info : GateInfo) (hC : gateCtor irrS detS irrG detG irrY = .ok info)
+    (x : List ℝ) (hx : x.length = dim info.irrepsIn) :
+    ∃ y, gateFwd irrS actS irrG actG irrY x = .ok y ∧ y.length = dim info.irrepsOut ∧
+      gateFwd irrS actS irrG actG irrY (rho G.toOrth.toAction info.irrepsIn x)
+        = .ok (rho G.toOrth.toAction info.irrepsOut y) :=
+  gate_equivariant _ G.twisted irrS irrG irrY actS detS hSS actG detG hSG info hC x hx
+
+/-- the hypothesis class is inhabited by a non-trivial element (coordinate reversal on every `l ≥ 1`, sign `-1`) -/
+example : O3Family := O3Family.example
+
+end
 end E3nnVerif.Props.C09
